@@ -1,4 +1,4 @@
-use std::collections::{HashMap, hash_map::Entry};
+use std::collections::{BTreeMap, HashMap, hash_map::Entry};
 
 use common_lang_types::{Diagnostic, DiagnosticResult, EntityName, Location, SelectableName};
 use isograph_lang_parser::IsoLiteralExtractionResult;
@@ -9,9 +9,9 @@ use pico_macros::memo;
 use prelude::{ErrClone, Postfix};
 
 use crate::{
-    CompilationProfile, EntrypointDeclarationInfo, IsographDatabase, flattened_entity_named,
-    parse_iso_literal_in_source, selectable_is_not_defined_diagnostic,
-    selectable_is_wrong_type_diagnostic, selectable_named,
+    CompilationProfile, EntrypointDeclarationInfo, IsographDatabase, NetworkProtocol,
+    flattened_entity_named, get_reachable_variables, parse_iso_literal_in_source,
+    selectable_is_not_defined_diagnostic, selectable_is_wrong_type_diagnostic, selectable_named,
 };
 
 #[memo]
@@ -62,7 +62,45 @@ pub fn validated_entrypoints<TCompilationProfile: CompilationProfile>(
                         .into(),
                 )
                 .wrap_err(),
-                Some(DefinitionLocation::Client(SelectionType::Scalar(_))) => {
+                Some(DefinitionLocation::Client(SelectionType::Scalar(
+                    client_scalar_selectable,
+                ))) => {
+                    // The parent type must be fetchable, and every variable that fetching it
+                    // introduces (e.g. $id, for node(id: $id)) must be defined by the client field.
+                    let location = entrypoint_declaration_info
+                        .parent_type
+                        .location
+                        .to::<Location>()
+                        .wrap_some();
+                    let wrapped = TCompilationProfile::NetworkProtocol::wrap_merged_selection_map(
+                        db,
+                        entrypoint_declaration_info.parent_type.item.0,
+                        BTreeMap::new(),
+                    )
+                    .map_err(|e| Diagnostic::new(e.0.message, location))?;
+                    let client_scalar_selectable = client_scalar_selectable.lookup(db);
+                    for variable_name in
+                        get_reachable_variables(wrapped.merged_selection_map.inner().reference())
+                    {
+                        if !client_scalar_selectable
+                            .arguments
+                            .iter()
+                            .any(|definition| definition.name.item == variable_name)
+                        {
+                            return Diagnostic::new(
+                                format!(
+                                    "In order to fetch `{}`, the variable `${}` must be defined by `{}.{}`.",
+                                    entrypoint_declaration_info.parent_type.item.0,
+                                    variable_name,
+                                    entrypoint_declaration_info.parent_type.item.0,
+                                    entrypoint_declaration_info.client_field_name.item.0,
+                                ),
+                                location,
+                            )
+                            .wrap_err();
+                        }
+                    }
+
                     Ok(EntrypointDeclarationInfo {
                         iso_literal_text: entrypoint_declaration_info.iso_literal_text,
                         directive_set: from_isograph_field_directives(
